@@ -176,7 +176,7 @@ Section Frag.
     | FIfC _ a b t1 t2 _ => frag a && (match b with Some b' => frag b' | None => true end) && frag t1 && frag t2
     | FPrint _ a next _ => frag a && frag next
     | FLet _ _ bound body _ => frag bound && frag body
-    | FCall f args ret => negb (String.eqb f "main") && call_kinds f args ret && forallb arg_ok args
+    | FCall f args ret => (negb (String.eqb f "main") || calls_main_prog p) && call_kinds f args ret && forallb arg_ok args
     | FCtor _ args _ => forallb darg_ok args
     | FCase scrut _ cls _ =>
         frag scrut && data_ty (fterm_type scrut)
@@ -238,16 +238,23 @@ End Frag.
 (* the guard of the preservation theorem, per definition and per program *)
 Definition def_guard (p : fcprog) (d : fdef) : bool :=
   frag p (fdbody d) && ws (compile_ctx (fdctx d)) (fdbody d)
-  && (if String.eqb (fdname d) "main" then data_ty p (fterm_type (fdbody d)) && ctx_data p (fdctx d) else true)
+  && (if String.eqb (fdname d) "main"
+      then data_ty p (fterm_type (fdbody d)) && ctx_data p (fdctx d)
+           (* when main is called (fix <commitmain>: the entry point passes its parameters on BY NAME): distinct parameters *)
+           && (negb (calls_main_prog p) || nodup_str (fvars (fdctx d)))
+      else true)
   && kd p (fdbody d) && Bool.eqb (tkind p (fdbody d)) (f_is_codata p (fdret d)).
-Definition prog_guard (p : fcprog) : bool := negb (calls_main_prog p) && forallb (def_guard p) (fcpdefs p).
+Definition prog_guard (p : fcprog) : bool := forallb (def_guard p) (fcpdefs p).
 
 
 (* the program guard as it was stated next to the Barendregt condition, when [def_guard] still contained the
    capture guard [nocap]; now the same predicate as [def_guard] *)
 Definition def_guard_b (p : fcprog) (d : fdef) : bool :=
   frag p (fdbody d) && ws (compile_ctx (fdctx d)) (fdbody d)
-  && (if String.eqb (fdname d) "main" then data_ty p (fterm_type (fdbody d)) && ctx_data p (fdctx d) else true)
+  && (if String.eqb (fdname d) "main"
+      then data_ty p (fterm_type (fdbody d)) && ctx_data p (fdctx d)
+           && (negb (calls_main_prog p) || nodup_str (fvars (fdctx d)))
+      else true)
   && kd p (fdbody d) && Bool.eqb (tkind p (fdbody d)) (f_is_codata p (fdret d)).
-Definition frag_prog (p : fcprog) : bool := negb (calls_main_prog p) && forallb (def_guard_b p) (fcpdefs p).
+Definition frag_prog (p : fcprog) : bool := forallb (def_guard_b p) (fcpdefs p).
 
